@@ -60,6 +60,13 @@ def run(prog, chk):
     chk.obs = [o for o in chk.obs if o["key"] not in ("A11.sink/events::<impl std::convert::From<events::OutputEvent> for quick_xml::events::Event<'a>>::from:from_escaped:comment",)]
     from props import C17
     C17.depth_pairing(prog, chk)
+    from props import C03
+    C03.qualified_names(prog, chk)  # same name on output: element and attribute names are the qualified names
+    C03.attrmap_keys_verbatim(prog, chk)
+    C03.writer_is_read_only(prog, chk)
+    from props import C19, C08
+    C19.text_not_altered(prog, chk)  # "the same text": character content is carried verbatim
+    C08.author_wins(prog, chk)  # the root's own attributes (id, width, viewBox ...) are kept
     from props import strops
     strops.check_for(prog, chk, "C04")  # A14.str-ops: how this property's strings are cut up is a reviewed, frozen inventory
 
